@@ -79,6 +79,14 @@ CHECKS['C13'] = dict(text="Theorems: the extras list worker._set_additional_args
   "logs over all 8 subsets x setter/constructor x lifespans x map/apply x 4 start methods (ids, shared values, state privacy "
   "and persistence, non-overlap in time). Partial: Python object identity of worker_state is observed, not modelled.",
   ref="5/C13", technique="Coq proof (instance-order invariant over all schedules; kernel equalities) + argument-log oracle")
+CHECKS['C09'] = dict(text="Theorems over the Apply model (every interleaving of submissions, per-worker FIFO execution, results-handler and "
+  "timeout-handler steps; AsyncResult._set is the kernel translated from async_result.py): a ready job carries the value / exception "
+  "/ TimeoutError of its own function, exactly one of callback / error_callback was invoked exactly once with it, nothing is "
+  "invoked before; a failing or overrunning apply task never stops the pool; when nothing can move any more every job is ready. "
+  "Tie: _set kernel + facts read off _run_safely; end-to-end submission batches (success / 3 exception shapes / timeouts, fetched "
+  "before or after stop_and_join, extras). Partial: _set is one atomic step per object; the window in which results handler and "
+  "timeout handler both fetch the object from the cache is not modelled (see DESIGN, adjacent finding D19).", ref="5/C09",
+  technique="Coq proof (per-job invariant over all interleavings, _set translated from source) + submission-batch oracle")
 PENDING = {}
 props = [json.loads(l) for l in open(os.path.join(V, 'properties.jsonl'))]
 m = dict(version=1,
